@@ -652,3 +652,20 @@ add("PC1", "break", UTIL, "pretty_cut", "    if not is_integer:\n        codes[p
 add("PC1", "break", UTIL, "pretty_cut", "labels = [f' <= {bins[0]}']", "labels = []", name="PC1 head label missing")
 add("PC1", "keep", UTIL, "pretty_cut", "codes = numeric_bins.searchsorted(x)", "codes = np.searchsorted(numeric_bins, x, side='left')", name="PC1 np.searchsorted explicit left")
 add("PC1", "keep", UTIL, "pretty_cut", "labels = [f' <= {bins[0]}']", "labels = []\n    labels.append(f' <= {bins[0]}')", name="PC1 head appended")
+
+# --------------------------------------------------------------------------------------------- MG1
+ARM = "add_row_margin"
+add("MG1", "break", CORE, ARM, "data.loc['All'] = data.agg(agg_func)", "data.loc['All'] = data.sum()", name="MG1 single-level total always a sum")
+add("MG1", "break", CORE, ARM, "other_levels = [lvl for lvl in all_levels if lvl != level]", "other_levels = [lvl for lvl in all_levels if lvl > level]", name="MG1 only the later levels kept")
+add("MG1", "break", CORE, ARM, "all_levels = list(range(data.index.nlevels))", "all_levels = list(range(data.index.nlevels - 1))", name="MG1 last level never summarised")
+add("MG1", "break", CORE, ARM, "data.groupby(level=other_levels, observed=True).agg(agg_func)", "data.groupby(level=other_levels, observed=True).agg('sum')", name="MG1 subtotal always summed")
+add("MG1", "break", CORE, ARM, "data.groupby(level=other_levels, observed=True).agg(agg_func)", "data.groupby(level=other_levels[:1], observed=True).agg(agg_func)", name="MG1 subtotal grouped by the first other level only")
+add("MG1", "break", CORE, ARM, "summary = add_row_margin(summary, agg_func)", "summary = add_row_margin(summary)", name="MG1 nested subtotals with the default aggregator")
+add("MG1", "break", CORE, ARM, "reorder_levels(np.argsort([level, *other_levels]))", "reorder_levels([level, *other_levels])", name="MG1 permutation instead of its inverse")
+add("MG1", "break", CORE, ARM, "names=[data.index.names[lvl] for lvl in [level, *other_levels]]", "names=[data.index.names[lvl] for lvl in all_levels]", name="MG1 names in index order")
+add("MG1", "break", CORE, ARM, "    for lvl in set(all_levels) - set(levels):\n        out.drop('All', level=lvl, inplace=True)\n", "", name="MG1 unrequested All rows kept")
+add("MG1", "break", CORE, "GroupBy._add_margins", "levels = list(margins)", "levels = None", name="MG1 requested levels ignored")
+add("MG1", "keep", CORE, ARM, "summary = pd.concat({'All': summary}, names=[data.index.names[lvl] for lvl in [level, *other_levels]])\n        summary.index = summary.index.reorder_levels(np.argsort([level, *other_levels]))",
+    "order = [level, *other_levels]\n        summary = pd.concat({'All': summary}, names=[data.index.names[lvl] for lvl in order])\n        summary.index = summary.index.reorder_levels(np.argsort(order))", name="MG1 order in a local")
+add("MG1", "keep", CORE, ARM, "other_levels = [lvl for lvl in all_levels if lvl != level]", "other_levels = [lvl for lvl in all_levels if level != lvl]", name="MG1 comparison commuted")
+add("MG1", "keep", CORE, ARM, "summary = add_row_margin(summary, agg_func)", "summary = add_row_margin(summary, agg_func=agg_func)", name="MG1 keyword recursion")
